@@ -18,6 +18,7 @@ done <<'LIST'
 053d9b9 C04
 4b740bf C04
 4be03cc C01 C06
+695c32f C01 C06
 2aa1b05 C12
 823f9aa C03
 7145276 C03
